@@ -56,6 +56,7 @@ def gen_seq(ch):
         ops.append((kind, ch.draw(2), ch.draw(3)))
     sc.ops = ops
     sc.falsy_inst = ch.chance(1, 4)
+    sc.owner_kind = ch.weighted([4, 1, 1])
     return sc
 
 
@@ -97,16 +98,35 @@ def make_class(sc, sim, runs, lock_type, state):
     else:
         prop = L.cached_property(getter)
 
-    class Holder:
-        def __init__(self, iid):
-            self.iid = iid
+    kind = getattr(sc, "owner_kind", 0)
+    if kind == 1:
+        # the property lives on a mixin without instance dict (__slots__ = ()); the instances are of an ordinary subclass
+        class Mixin:
+            __slots__ = ()
+
+        Mixin.attr = prop
+        prop.__set_name__(Mixin, "attr")
+
+        class Holder(Mixin):
+            def __init__(self, iid):
+                self.iid = iid
+    else:
+        class Holder:
+            def __init__(self, iid):
+                object.__setattr__(self, "iid", iid)
+
+        if kind == 2:
+            # an owner that forbids plain attribute assignment (frozen dataclass style); it has a normal __dict__
+            def _frozen(self, name, value):
+                raise AttributeError("cannot assign to field %r" % name)
+
+            Holder.__setattr__ = _frozen
+        Holder.attr = prop
+        prop.__set_name__(Holder, "attr")
 
     if getattr(sc, "falsy_inst", False):
         # a container-like owner that is currently empty tests false: it owns its cached attribute all the same
         Holder.__len__ = lambda self: 0
-
-    Holder.attr = prop
-    prop.__set_name__(Holder, "attr")
     return Holder
 
 
@@ -317,6 +337,7 @@ def gen_conc(ch):
     sc.backend = pick_backend(ch, 1, 4)
     sc.fault_kind = ch.draw(len(GETTER_ERRORS))
     sc.falsy_inst = ch.chance(1, 4)
+    sc.owner_kind = ch.weighted([4, 1, 1])
     return sc
 
 
